@@ -145,10 +145,12 @@ def _emptiness_edges(f, var):
 
 def d2_d3_d4_mutators(ctx, c, reader):
     nw = 0
-    for name in ('update', 'pop', 'popitem'):
+    for name in ('update', 'pop', 'popitem', '__setitem__', '__delitem__', 'clear', 'setdefault'):
         f = c.methods.get(name)
         if f is None:
-            raise AnalysisError(f'MetaData.{name} vanished')
+            if name in ('update', 'pop', 'popitem'):
+                raise AnalysisError(f'MetaData.{name} vanished')
+            continue
         sites = _write_sites(ctx, f)
         # helpers called by the mutator that write the file
         helper_sites = []
@@ -156,6 +158,8 @@ def d2_d3_d4_mutators(ctx, c, reader):
             if cal.cls is c and cal is not reader and cal.name not in ('update', 'pop', 'popitem') and \
                     _write_sites(ctx, cal):
                 helper_sites.append((node, cal))
+        if not sites and not helper_sites and name not in ('update', 'pop', 'popitem'):
+            continue            # delegates to one of the three mutators (D5 decides how)
         if not sites and not helper_sites:
             ctx.bad('R-SIB', 'D2', f, None, 'writes-file', f'MetaData.{name} writes metadata.json',
                     detail='mutator never writes the file')
@@ -358,6 +362,16 @@ def d5_forwarding(ctx, c):
     key = [p for p in di.params if p != 'self'][0]
     ok = any(isinstance(n, ast.Call) and dotted(n.func) == 'self.pop' and len(n.args) == 1 and not n.keywords and
              norm(n.args[0]) == key for n in own_nodes(di.node))
+    if not ok:
+        # a mutator of its own (read, remove, persist — the persistence is decided by D2/D3 above): the removal is a
+        # dictionary operation that raises KeyError for a missing key
+        removes = [n for n in own_nodes(di.node) if
+                   (isinstance(n, ast.Call) and isinstance(n.func, ast.Attribute) and n.func.attr == 'pop' and len(n.args) == 1
+                    and not n.keywords and norm(n.args[0]) == key and DICT in ctx.R.etype(n.func.value, di)) or
+                   (isinstance(n, ast.Delete) and len(n.targets) == 1 and isinstance(n.targets[0], ast.Subscript) and
+                    norm(n.targets[0].slice) == key and DICT in ctx.R.etype(n.targets[0].value, di))]
+        ok = bool(removes) and bool(_write_sites(ctx, di) or [
+            1 for _, cal in ctx.E.callees(di) if cal.cls is c and _write_sites(ctx, cal)])
     ctx.decide(ok, 'R-FLOW', 'D5', di, None, 'delitem-via-pop', '__delitem__ delegates to pop(key) without a default',
                detail='__delitem__ passes a default (a missing key would not raise KeyError) or bypasses pop')
 
